@@ -9,9 +9,9 @@ use std::sync::Mutex;
 
 pub fn spaces(tier: &str) -> Vec<(String, EOpts, Option<usize>)> {
     if tier == "quick" {
-        vec![("enum(v<=2,f<=1)".into(), EOpts { max_variants: 2, max_fields: 1, full_menu: true }, Some(5))]
+        vec![("enum(v<=2,f<=2)".into(), EOpts { max_variants: 2, max_fields: 2, full_menu: true }, Some(5))]
     } else {
-        vec![("enum(v<=2,f<=2)".into(), EOpts { max_variants: 2, max_fields: 2, full_menu: true }, None), ("enum(v<=3,f<=2)".into(), EOpts { max_variants: 3, max_fields: 2, full_menu: true }, Some(6))]
+        vec![("enum(v<=2,f<=2)".into(), EOpts { max_variants: 2, max_fields: 2, full_menu: true }, Some(7)), ("enum(v<=3,f<=2)".into(), EOpts { max_variants: 3, max_fields: 2, full_menu: true }, Some(5))]
     }
 }
 
